@@ -188,5 +188,75 @@ pub proof fn lemma_one_pow(e: nat)
     if e > 0 { lemma_one_pow((e - 1) as nat); }
 }
 
+// ---------------------------------------------------------------- exact multiplicative order (C12)
+/// d is the multiplicative order of h: the least positive exponent with h^d = 1
+pub open spec fn is_order(h: nat, d: nat) -> bool {
+    d > 0 && pow_mod(h, d) == 1 && forall|e: nat| 0 < e < d ==> #[trigger] pow_mod(h, e) != 1
+}
+/// h^(2^k) = 1 and h^(2^j) != 1 for every j < k  ==>  no exponent 0 < e < 2^k gives 1
+pub proof fn lemma_no_smaller_exponent(h: nat, k: nat, e: nat)
+    requires h < P, pow_mod(h, pow2(k)) == 1, forall|j: nat| j < k ==> #[trigger] pow_mod(h, pow2(j)) != 1, 0 < e < pow2(k)
+    ensures pow_mod(h, e) != 1
+    decreases k
+{
+    if k == 0 { } else if pow_mod(h, e) == 1 {
+        let k1 = (k - 1) as nat;
+        lemma_pow2_pos(k1);
+        if e % 2 == 0 {
+            // (h^2)^(e/2) = 1 with 0 < e/2 < 2^(k-1), and h^2 satisfies the hypotheses for k-1
+            let h2 = pow_mod(h, 2);
+            let e2: nat = e / 2;
+            assert(e == 2 * e2);
+            lemma_pow_mod_mul(h, 2, e2);
+            assert(pow_mod(h2, e2) == 1);
+            lemma_pow_mod_mul(h, 2, pow2(k1));
+            assert(2 * pow2(k1) == pow2(k));
+            assert(pow_mod(h2, pow2(k1)) == 1);
+            assert forall|j: nat| j < k1 implies #[trigger] pow_mod(h2, pow2(j)) != 1 by {
+                lemma_pow_mod_mul(h, 2, pow2(j));
+                assert(2 * pow2(j) == pow2(j + 1));
+                assert(pow_mod(h, pow2(j + 1)) != 1);
+            }
+            assert(h2 < P) by { lemma_mod_bound((h * pow_mod(h, 1)) as int, P as int); }
+            lemma_no_smaller_exponent(h2, k1, e2);
+        } else {
+            // t = h^(2^(k-1)) != 1, t^2 = 1; (h^e)^(2^(k-1)) = t^e = t * (t^2)^((e-1)/2) = t  -- contradiction
+            let t = pow_mod(h, pow2(k1));
+            assert(t != 1);
+            lemma_pow_mod_mul(h, pow2(k1), 2);
+            assert(pow2(k1) * 2 == pow2(k));
+            assert(pow_mod(t, 2) == 1);
+            lemma_pow_mod_mul(h, e, pow2(k1));
+            lemma_one_pow(pow2(k1));
+            assert(pow_mod(h, e * pow2(k1)) == 1);
+            assert(e * pow2(k1) == pow2(k1) * e) by(nonlinear_arith);
+            lemma_pow_mod_mul(h, pow2(k1), e);
+            assert(pow_mod(t, e) == 1);
+            let half: nat = ((e - 1) / 2) as nat;
+            assert(e == 2 * half + 1);
+            lemma_pow_mod_add(t, 2 * half, 1);
+            lemma_pow_mod_mul(t, 2, half);
+            lemma_one_pow(half);
+            assert(pow_mod(t, 2 * half) == 1);
+            assert(t < P) by { if pow2(k1) == 0 {} else { lemma_mod_bound((h * pow_mod(h, (pow2(k1) - 1) as nat)) as int, P as int); } }
+            assert(pow_mod(t, 1) == t) by {
+                assert(pow_mod(t, 0) == 1nat % P);
+                assert(1nat % P == 1) by(compute_only);
+                assert(t * 1 == t);
+                lemma_small_mod(t, P);
+            }
+            assert(fmul(1, t) == t) by { assert(1 * t == t); lemma_small_mod(t, P); }
+            assert(false);
+        }
+    }
+}
+/// the statement of C12: the order is EXACTLY 2^k
+pub proof fn lemma_order_exactly_pow2(h: nat, k: nat)
+    requires h < P, pow_mod(h, pow2(k)) == 1, forall|j: nat| j < k ==> #[trigger] pow_mod(h, pow2(j)) != 1
+    ensures is_order(h, pow2(k)) // [C12:lemma-order-is-exactly-2^k]
+{
+    lemma_pow2_pos(k);
+    assert forall|e: nat| 0 < e < pow2(k) implies #[trigger] pow_mod(h, e) != 1 by { lemma_no_smaller_exponent(h, k, e); }
+}
 } // verus!
 } // mod numth
